@@ -299,7 +299,7 @@ class RBE:
         self.prog = prog
         self.eff = effects or Effects(prog)
         self.summ = {}
-        self.ignore_effect = ignore_effect or (lambda kind, text: False)
+        self.ignore_effect = ignore_effect or (lambda kind, text, node=None: False)
         self.inline_filter = inline_filter or (lambda cls, name: True)
         self.depth_exceeded = []
         self.filtered = []          # (call site, raise text) discarded as infeasible -- reported in the evidence
@@ -452,7 +452,7 @@ class RBE:
                         if s2['dirty_ret'] is not None and out is None:
                             out = (f'{s2["dirty_ret"][0]}', s2['dirty_ret'][1], s2['dirty_ret'][2],
                                    [f'{def_cls}.{fn.name}:{c.lineno}'] + s2['dirty_ret'][3])
-                    effs = [e for e in self.eff.of(a, skip_calls=inl) if not self.ignore_effect(e[0], e[1])]
+                    effs = [e for e in self.eff.of(a, skip_calls=inl) if not self.ignore_effect(e[0], e[1], e[2])]
                     if effs and out is None:
                         e = effs[0]
                         out = (f'{e[0]} {e[1]}', f'{def_cls}.{fn.name}', getattr(e[2], 'lineno', a.lineno), [])
